@@ -22,6 +22,7 @@ OPS = {
     "verts": "obtain_vertices", "leafa": "obtain_leaf_vertices(accessor)", "leafl": "obtain_leaf_vertices(latter_map)",
     "pm": "path_matching", "cis": "calculate_intersection_score", "enc": "encode", "dec": "decode", "vt": "set_vt",
     "rep": "repair_dna", "fv": "find_vertices", "cvg": "connect_valid_graph", "ccg": "connect_coding_graph",
+    "shuf": "create_random_shuffles (NumPy MT19937 + legacy shuffle, modelled in Model/Shuffle.lean)",
     "gen": "the definitions generated from dsw/operation.py by harness/py2lean.py (DswModel.Gen.Operation)",
     "rna": "remove_nasty_arc", "flt": "LocalBioFilter.__init__/valid", "cap": "approximate_capacity (power iteration)",
 }
@@ -117,11 +118,16 @@ PROPS = {
                 not_proved=["the 1e-4 accuracy of the floating-point power iteration under the spectral-gap precondition (needs Perron-Frobenius convergence rates and an IEEE-754 error analysis): TESTED against the Collatz-Wielandt enclosure whose soundness is C17_certificate_*, and the float iteration is compared step by step with the exact-rational model"], gens=["C17"],
                 rule="graphs meeting the structural precondition x modes; non-trivial = non-integer spectral radius"),
     "C18": dict(level="proof", theorems=T("C18", "C18_shape", "C18_argsort_perm", "C18_bijection", "C18_digit_is_rank",
-                                          "C18_distinct_none", "C18_distinct_perm", "C18_finite_table"), gens=["C18"],
+                                          "C18_distinct_none", "C18_distinct_perm", "C18_finite_table") +
+                ["DswModel.Props.C18c:Dsw.%s" % n for n in ("C18_any_source", "C18_seeded_shape", "C18_seeded_perm", "C18_seeded_rows",
+                                                          "C18_seeded_deterministic", "C18_seed_range")], gens=["C18"],
                 rule="all 24 permutations x 15 live patterns x digits through the real encode/decode, and tables for "
                      "k x seeds; non-trivial = non-identity row with 2..3 live arcs",
-                not_proved=["same seed => same table and no effect other than on the global generator: NumPy's "
-                            "generator is an external call; observed by the harness (a test, not a theorem)"]),
+                not_proved=["that the call has no effect other than on NumPy's global random state is observed by the harness "
+                            "(module-level snapshots, interleaved calls) - a test, not a theorem. 'Same seed => same table' "
+                            "is a theorem about the model since the continuation session: Model/Shuffle.lean models MT19937 "
+                            "seeding and NumPy's legacy shuffle, the table is a pure function of (k, seed) there "
+                            "(C18_seeded_deterministic) and is compared entry by entry with NumPy's output on every run"]),
     "C19": dict(level="proof", theorems=T("C19", "C19_scores", "C19_step", "C19_history"), gens=["C19"],
                 rule="generated graphs x flags x removal sequences until the first raise; non-trivial = history of "
                      ">= 2 returning calls"),
